@@ -14,6 +14,7 @@
      printExpr case EDot (non-optional, identifier name) -> emit (IDot s)
      printExpr case EIf  -> print_items (ECond), emit IQuest / IColon
      printExpr case EIndex (non-optional) -> print_items (EIndex), emit ILBrack / IRBrack
+     printExpr case ECall (non-optional, no "(0, f)" guard) / ENew -> print_items (ECall / ENew), emit ICallOpen / INew
      js_ast.OpTable                     -> op_text / op_level / op_is_keyword (tied by the correspondence run)
 
    Abstraction: the Go printer keeps byte positions (prevOpEnd, needSpaceBeforeDot,
@@ -134,7 +135,9 @@ Inductive item :=
  | IQuest            (* "?" of a conditional *)
  | IColon            (* ":" of a conditional *)
  | ILBrack           (* "[" of an index access *)
- | IRBrack.          (* "]" *)
+ | IRBrack           (* "]" *)
+ | INew              (* the keyword "new" *)
+ | ICallOpen.        (* "(" that opens an argument list (follows its callee) *)
 
 Inductive mark := MNone | MOp (o : op) | MNum | MRe.
 (* lastc/last2 = -1 when the buffer is shorter *)
@@ -225,6 +228,8 @@ Definition emit (mw : bool) (i : item) : act :=
   | IColon => printSpace mw ;; pr [58] ;; printSpace mw
   | ILBrack => pr [91]
   | IRBrack => pr [93]
+  | INew => printSpaceBeforeIdentifier ;; pr [110; 101; 119] ;; printSpace mw
+  | ICallOpen => pr [40]
   end.
 
 Fixpoint render (mw : bool) (st : pst) (l : list item) : list Z :=
@@ -242,7 +247,11 @@ Inductive expr :=
  | EUn (o : op) (e : expr)       (* prefix or postfix operator *)
  | EBin (o : op) (l r : expr)
  | ECond (c y n : expr)          (* EIf: c ? y : n *)
- | EIndex (e i : expr).          (* EIndex (non-optional): e[i] *)
+ | EIndex (e i : expr)           (* EIndex (non-optional): e[i] *)
+ | ECall (f a : expr)            (* ECall (non-optional): f(a), a an argument list *)
+ | ENew (f a : expr)             (* ENew: new f(a) *)
+ | ANil                          (* argument lists: empty *)
+ | ACons (e rest : expr).        (* argument lists: e, rest *)
 
 Definition is_left_assoc (o : op) : bool :=
   match op_kind o with KBin => (op_level o >? LAssign) && negb (op_eqb o BPow) | _ => false end.
@@ -254,19 +263,31 @@ Definition paren (w : bool) (l : list item) : list item := if w then [IOpen] ++ 
 Definition is_or_and (e : expr) : bool :=
   match e with EBin o _ _ => op_eqb o BLogOr || op_eqb o BLogAnd | _ => false end.
 
-(* printExpr(expr, level, _) restricted to the fragment (flags: none);
-   binaryExprVisitor.checkAndPrepare for the operand levels *)
-Fixpoint print_items (level : Z) (e : expr) : list item :=
+Definition has_args (a : expr) : bool := match a with ACons _ _ => true | _ => false end.
+
+(* The isNewTarget flag.  printExpr passes it from ENew to its callee (printed at LNew) and from
+   there along EDot/EIndex targets (printed at LPostfix); everything else drops it; its only effect
+   is that an ECall is parenthesised.  On this fragment nothing prints differently at LPostfix
+   and at LNew except ECall (which is parenthesised at LNew anyway), and LNew is used as a level
+   only for the callee of ENew.  The flag is therefore represented by the level itself:
+   "level = LNew" stands for "isNewTarget is set", and the target of a member access is printed
+   at [tgt_level level] (LNew again under the flag, LPostfix otherwise).  Tied to the code by the
+   correspondence run on new (a()).b, new (a.b()), new (a().b[c])() ... *)
+Definition tgt_level (level : Z) : Z := if level =? LNew then LNew else LPostfix.
+
+(* printExpr(expr, level, flags) restricted to the fragment; binaryExprVisitor.checkAndPrepare
+   for the operand levels.  mw = MinifyWhitespace (only ENew looks at it: "new a" without "()") *)
+Fixpoint print_items (mw : bool) (level : Z) (e : expr) : list item :=
   match e with
   | EId s => [IId s]
   | ENum s => [INum s]
   | ERe b f => [IRe b f]
-  | EDot t s => print_items LPostfix t ++ [IDot s]
+  | EDot t s => print_items mw (tgt_level level) t ++ [IDot s]
   | EUn o v =>
       paren (level >=? op_level o)
         (match op_kind o with
-         | KPost => print_items (LPostfix - 1) v ++ [IOp o]
-         | _ => [IOp o] ++ print_items (LPrefix - 1) v
+         | KPost => print_items mw (LPostfix - 1) v ++ [IOp o]
+         | _ => [IOp o] ++ print_items mw (LPrefix - 1) v
          end)
   | EBin o l r =>
       let lv := op_level o in
@@ -278,11 +299,21 @@ Fixpoint print_items (level : Z) (e : expr) : list item :=
       let right_level :=
         if op_eqb o BNullish && is_or_and r then LPrefix
         else if is_left_assoc o then lv else lv - 1 in
-      paren (level >=? lv) (print_items left_level l ++ [IOp o] ++ print_items right_level r)
+      paren (level >=? lv) (print_items mw left_level l ++ [IOp o] ++ print_items mw right_level r)
   | ECond c y n =>
       paren (level >=? LConditional)
-        (print_items LConditional c ++ [IQuest] ++ print_items LYield y ++ [IColon] ++ print_items LYield n)
-  | EIndex t i => print_items LPostfix t ++ [ILBrack] ++ print_items LLowest i ++ [IRBrack]
+        (print_items mw LConditional c ++ [IQuest] ++ print_items mw LYield y ++ [IColon] ++ print_items mw LYield n)
+  | EIndex t i => print_items mw (tgt_level level) t ++ [ILBrack] ++ print_items mw LLowest i ++ [IRBrack]
+  | ECall f a =>
+      paren (level >=? LNew) (print_items mw LPostfix f ++ [ICallOpen] ++ print_items mw LComma a ++ [IClose])
+  | ENew f a =>
+      paren (level >=? LCall)
+        ([INew] ++ print_items mw LNew f ++
+         (if negb mw || has_args a || (level >=? LPostfix)
+          then [ICallOpen] ++ print_items mw LComma a ++ [IClose] else []))
+  | ANil => []
+  | ACons x rest =>
+      print_items mw LComma x ++ (match rest with ACons _ _ => [IOp BComma] ++ print_items mw LComma rest | _ => [] end)
   end.
 
-Definition print_expr (mw : bool) (e : expr) : list Z := render mw st0 (print_items LLowest e).
+Definition print_expr (mw : bool) (e : expr) : list Z := render mw st0 (print_items mw LLowest e).
